@@ -104,10 +104,11 @@ SpansOK ==
 (* ------------------------------------------------------------------ C05 *)
 Total ==
   (st = "done" /\ Prop = "C05") =>
-    /\ (O.outcome # "panic") \/ Dis("panic_in_build", [site |-> O.panic])
-    /\ (O.qpanic = "") \/ Dis("panic_in_query", [site |-> O.qpanic])
+    /\ (O.outcome # "panic") \/ Dis("panic_in_build", [site |-> O.panic, op |-> O.op])
+    /\ (O.qpanic = "") \/ Dis("panic_in_query", [site |-> O.qpanic, op |-> O.op])
     /\ (O.outcome = "compile" => O.ekind = "oversized_program") \/ Dis("compile_error_not_oversize", [ekind |-> O.ekind])
-    /\ (O.outcome \in {"ok", "parse", "rule", "compile", "panic"}) \/ Dis("unknown_outcome", [outcome |-> O.outcome])
+    /\ (O.outcome \in {"ok", "parse", "rule", "compile", "panic"}) \/ Dis("abnormal_termination", [outcome |-> O.outcome, site |-> O.panic])
+    /\ O.slice_ok \/ Dis("slicing_by_error_span_panics", [spans |-> O.espans])
 
 (* ------------------------------------------------------------------ TOK *)
 (* the token tree of the nom parser (verif_tokens hook) equals the reader's, spans included *)
